@@ -236,6 +236,35 @@ theorem C08_lookup_correct {self : Nat} {t : CTable} (hwf : WF cidrCfg self t) (
       rw [hsame] at he'
       exact head_min hok.sorted hh he'
 
+/-- The invariant, and the set of stored routes, do not depend on the order in which the Go map
+    is enumerated. -/
+theorem WF_perm {self : Nat} {t t' : CTable} (hp : t'.Perm t) (hwf : WF cidrCfg self t) :
+    WF cidrCfg self t' :=
+  ⟨by
+    have := hwf.1
+    unfold keys at this ⊢
+    exact (List.Perm.nodup_iff (hp.map _)).mpr this,
+   fun kg hkg => hwf.2 kg (hp.mem_iff.mp hkg)⟩
+
+/-- **Every iteration order**: whatever order `range t.routes` yields (any permutation `t'` of
+    the map's entries), the answer computed in that order satisfies the property for the table. -/
+theorem C08_any_map_order {self : Nat} {t t' : CTable} (hp : t'.Perm t)
+    (hwf : WF cidrCfg self t) (ip : IPAddr) : LPM t ip (lookup t' ip) := by
+  have h := C08_lookup_correct (WF_perm hp hwf) ip
+  have hr : ∀ x, x ∈ routes t' ↔ x ∈ routes t := by
+    intro x
+    simp only [mem_routes]
+    constructor
+    · rintro ⟨kg, hkg, hx⟩; exact ⟨kg, hp.mem_iff.mp hkg, hx⟩
+    · rintro ⟨kg, hkg, hx⟩; exact ⟨kg, hp.mem_iff.mpr hkg, hx⟩
+  cases hl : lookup t' ip with
+  | none =>
+    rw [hl] at h
+    exact fun r' hr' => h r' ((hr r').mpr hr')
+  | some r =>
+    rw [hl] at h
+    exact ⟨(hr r).mp h.1, h.2.1, fun r' hr' => h.2.2 r' ((hr r').mpr hr')⟩
+
 /-- **C08 holds** for the repaired code: every history, every address. -/
 theorem C08_holds : C08_statement := fun self ops ip =>
   C08_lookup_correct (C08_inv_run self ops) ip
